@@ -54,7 +54,7 @@ class C12(Prop):
             if rng.random() < 0.06:
                 s, e = e + rng.choice([1, 60, DAY]), s
             cases.append({'kind': 'sim', 'start': s, 'stop': e, 'pre': rng.random() < 0.5, 'post': rng.random() < 0.5,
-                          'stream': 'random'})
+                          'stream': 'random', 'naive': rng.random() < 0.15})
         if tier == 'thorough':
             for a in range(0, 70):
                 for b in range(a, 70):
@@ -76,7 +76,7 @@ class C12(Prop):
 
     def judge(self, c, impl, mod):
         j = Judgement()
-        j.key = (c['start'], c['stop'], c['pre'], c['post'])
+        j.key = (c['start'], c['stop'], c['pre'], c['post'], bool(c.get('naive')))
         if impl[0] == 'err' or mod[0] == 'err':
             mi = mod[1] if mod[0] == 'err' else 'ok'
             ii = impl[1] if impl[0] == 'err' else 'ok'
@@ -91,6 +91,10 @@ class C12(Prop):
             return j
         if c['stop'] < c['start']:
             j.failures.append('end earlier than start was accepted')
+        if impl[1] and isinstance(impl[1][0], list) and impl[1][0] and impl[1][0][0] == 'not-utc':
+            j.failures.append('events of a clock built from a start/end without time zone are not stamped in UTC: %s' % impl[1][:2])
+            j.nontrivial = True
+            return j
         if len(impl) > 2:
             j.failures.append('iterating the same engine a second time gives %d events instead of %d' % (len(impl[2]), len(impl[1])))
         me = [[e[0], e[1]] for e in mod[1]]
